@@ -6,7 +6,7 @@ import itertools
 import os
 import tempfile
 import numpy as np
-from ..core import CTX, attempt, held, violated, same_array, short
+from ..core import CTX, attempt, held, violated, same_array, short, scribble
 from .. import gen, contracts
 
 PROP = "C01"
@@ -27,10 +27,10 @@ ANCHORS = [
     "raggedshape.py::ViewBase.ravel_multi_index", "raggedshape.py::ViewBase.unravel_multi_index", "raggedshape.py::ViewBase.index_array",
     "raggedshape.py::RaggedShape.size",
 ]
-CTORS = ["rows", "pyrows", "flat", "flat_nplens", "flatlist", "shape_tuple", "raggedshape", "matrix"]
+CTORS = ["rows", "pyrows", "flat", "flat_nplens", "flatlist", "shape_tuple", "raggedshape", "flat_strided", "matrix"]
 FLOOR_TAGS = ["ctor:" + c for c in CTORS] + ["kind:b", "kind:i", "kind:u", "kind:f", "v:small", "v:extreme", "v:nonfinite",
-                                             "reject", "saveload", "matrix-roundtrip", "norows", "allempty", "e-first", "e-last", "e-mid", "e-consec", "e-none", "big-repr"]
-FLOOR_MONITORS = ["c01:readback", "c01:geometry", "c01:reject", "inv:ragged"]
+                                             "reject", "saveload", "matrix-roundtrip", "order:F", "order:T", "order:strided", "norows", "allempty", "e-first", "e-last", "e-mid", "e-consec", "e-none", "big-repr"]
+FLOOR_MONITORS = ["c01:readback", "c01:geometry", "c01:reject", "c01:result-independent", "inv:ragged"]
 N_RANDOM = {"quick": 12500, "thorough": 120000}
 
 
@@ -62,6 +62,10 @@ def build(case, flat, rows):
         return RA(flat.copy(), other.shape), True
     if ctor == "raggedshape":
         return RA(flat.copy(), CTX.lib.RaggedShape(list(lens))), True
+    if ctor == "flat_strided":      # a non-contiguous view as the flat buffer
+        big = np.zeros(2 * len(flat) + 1, dtype=dt)
+        big[1::2] = flat
+        return RA(big[1::2], list(lens)), True
     raise ValueError(ctor)
 
 
@@ -128,6 +132,18 @@ def run(case):
         good = attempt(ok, o.value)
         if not (good.ok and good.value):
             return fail(what, o.value, exp)
+
+    # conversions return independent arrays: overwriting them must not change what the array reports (numpy's astype copies)
+    CTX.tick("c01:result-independent", tot > 0)
+    for what, f in (("astype(own dtype)", lambda: ra.astype(dt)), ("astype(float64)", lambda: ra.astype(np.float64)), ("tolist", lambda: ra.tolist())):
+        o = attempt(f)
+        if o.ok and not isinstance(o.value, list):
+            scribble(o.value)
+        elif o.ok:
+            for row in o.value:
+                row[:] = [0] * len(row)
+        if not eqrow(ra.ravel(), flat, dtype=dtype_fixed):
+            return fail("content after overwriting the result of " + what, ra.ravel(), flat)
 
     # save / load round trip
     if case["saveload"]:
@@ -215,7 +231,16 @@ def run_matrix(case, tags):
     r_, c_ = case["lens"]
     dt = np.dtype(case["dtype"])
     m = np.array(case["vals"], dtype=dt).reshape(r_, c_)
-    tags = ["ctor:matrix", "kind:" + dt.kind, "v:" + case["vclass"], "matrix-roundtrip"]
+    order = case.get("order", "C")
+    if order == "F":
+        m = np.asfortranarray(m)
+    elif order == "T":                # a transposed view of the transposed data: same logical matrix, Fortran-ordered memory
+        m = np.ascontiguousarray(m.T).T
+    elif order == "strided":
+        wide = np.zeros((r_, 2 * c_ + 1), dtype=dt)
+        wide[:, 1::2] = m
+        m = wide[:, 1::2]
+    tags = ["ctor:matrix", "kind:" + dt.kind, "v:" + case["vclass"], "matrix-roundtrip", "order:" + order]
     CTX.tick("c01:readback", m.size > 0)
     o = attempt(RA.from_numpy_array, m)
     if not o.ok:
@@ -266,8 +291,8 @@ def reject_case(lens, delta, dtype="int64", form="lens"):
     return {"lens": list(lens), "dtype": dtype, "ctor": "reject", "delta": delta, "form": form, "vclass": "small", "vals": []}
 
 
-def matrix_case(r, c, dtype, vals, vclass="small"):
-    return {"lens": [r, c], "dtype": np.dtype(dtype).name, "ctor": "matrix", "vclass": vclass, "vals": vals, "saveload": False}
+def matrix_case(r, c, dtype, vals, vclass="small", order="C"):
+    return {"lens": [r, c], "dtype": np.dtype(dtype).name, "ctor": "matrix", "vclass": vclass, "vals": vals, "saveload": False, "order": order}
 
 
 def directed():
@@ -306,7 +331,8 @@ def directed():
     for r_, c_ in [(0, 0), (0, 3), (1, 1), (3, 0), (2, 3), (4, 1), (1, 5)]:
         for dtype in ("int64", "int8", "uint16", "bool", "float32", "float64"):
             vals = gen.values(rng, dtype, r_ * c_, "small").tolist()
-            yield matrix_case(r_, c_, dtype, vals)
+            for order in ("C", "F", "T", "strided"):
+                yield matrix_case(r_, c_, dtype, vals, order=order)
     yield matrix_case(2, 2, "float64", [float("nan"), 1.0, float("inf"), -0.0], "nonfinite")
 
 
@@ -324,7 +350,7 @@ def random_case(rng, tier):
     vclass = rng.choice(["small", "small", "extreme"] + (["nonfinite"] if kind == "f" else []))
     if u < 0.16:
         r_, c_ = rng.randint(0, 5), rng.randint(0, 6)
-        return matrix_case(r_, c_, dtype, gen.values(rng, dtype, r_ * c_, vclass).tolist(), vclass)
+        return matrix_case(r_, c_, dtype, gen.values(rng, dtype, r_ * c_, vclass).tolist(), vclass, rng.choice(["C", "C", "F", "T", "strided"]))
     lens, _ = gen.length_vector(rng, tier)
     ctor = rng.choice(CTORS[:-1])
     return mk_case(lens, dtype, ctor, vclass, rng=rng, saveload=rng.random() < 0.15)
